@@ -296,7 +296,9 @@ def s_diff(draw, wide=False, regional=False, thumb=False):
         res_m = draw(st.sampled_from([10000.0, 10000.0, 20000.0]))
         Hs, Ws = draw(st.integers(80, 400)), draw(st.integers(80, 400))
         Hd, Wd = draw(st.integers(4, 19)), draw(st.integers(4, 19))
-        zoom = draw(st.sampled_from([1000e3, 1500e3, 2000e3])) / (max(Hd, Wd) * res_m)
+        if draw(st.booleans()):
+            Hd, Wd = min(Hd, 11), min(Wd, 11)
+        zoom = draw(st.sampled_from([1000e3, 1500e3, 2000e3, 2500e3, 3500e3])) / (max(Hd, Wd) * res_m)
     off = [draw(st.floats(-1.2, 1.2)), draw(st.floats(-1.2, 1.2))]  # dst centre offset in units of source half-extent
     if draw(st.integers(0, 5)) == 0:
         off[0] += draw(st.sampled_from([-4.0, 4.0]))
@@ -375,15 +377,50 @@ def o_diff(case, T):
         ys = [p[1] for p in pts]
         return min(xs), max(xs), min(ys), max(ys)
 
+    static_ok = True
     for fn, W, H in ((d2s, Wd, Hd), (s2d, Ws, Hs)):
         e5, e65 = envelope(fn, W, H, 5), envelope(fn, W, H, 65)
         if e5 is None or e65 is None:
             T.exclude("boundary_does_not_project")
             return
         if max(abs(u - v) for u, v in zip(e5, e65)) > 0.25:
+            static_ok = False
+    o = case["opts"]
+    if not static_ok:
+        # Strong curvature.  The documented mechanism (5 samples per side of the destination boundary, enveloped, padded,
+        # then 5 samples per side of that source region mapped back) can still promise every needed pixel when the
+        # destination pixels are coarse: simulate it with the oracle's own map; the case is decided iff that reference
+        # covers every needed pixel with a quarter-pixel margin (depends on the inputs only, never on odc-geo's answer)
+        pad_ = o["padding"] if o["padding"] is not None else 1
+        e5 = envelope(d2s, Wd, Hd, 5)
+        rs = [max(0, math.floor(e5[0]) - pad_), min(Ws, math.ceil(e5[1]) + pad_), max(0, math.floor(e5[2]) - pad_), min(Hs, math.ceil(e5[3]) + pad_)]
+        ok = rs[0] < rs[1] and rs[2] < rs[3]
+        if ok:
+            pts = []
+            for k in range(5):
+                u = k / 4
+                x_, y_ = rs[0] + u * (rs[1] - rs[0]), rs[2] + u * (rs[3] - rs[2])
+                pts += [s2d(x_, rs[2]), s2d(x_, rs[3]), s2d(rs[0], y_), s2d(rs[1], y_)]
+            ok = all(p is not None for p in pts)
+        if ok:
+            rd = [max(0, math.floor(min(p[0] for p in pts))), min(Wd, math.ceil(max(p[0] for p in pts))), max(0, math.floor(min(p[1] for p in pts))), min(Hd, math.ceil(max(p[1] for p in pts)))]
+            m_ = 0.25
+            for j in range(Hd):
+                for i in range(Wd):
+                    p = d2s(i + 0.5, j + 0.5)
+                    if p is None:
+                        ok = False
+                        break
+                    if -1e-6 < p[0] < Ws + 1e-6 and -1e-6 < p[1] < Hs + 1e-6:  # (possibly) needed
+                        if not (rs[0] + m_ <= p[0] <= rs[1] - m_ and rs[2] + m_ <= p[1] <= rs[3] - m_ and rd[0] + m_ <= i + 0.5 <= rd[1] - m_ and rd[2] + m_ <= j + 0.5 <= rd[3] - m_):
+                            ok = False
+                            break
+                if not ok:
+                    break
+        if not ok:
             T.exclude("curvature_beyond_sampling")
             return
-    o = case["opts"]
+        T.cls("decided_by_reference_sampling")
     info = compute_reproject_roi(src, dst, padding=o["padding"], align=o["align"])
     require(info.paste_ok is False, "paste_ok for different CRSs")
     require(info.transform.linear is None, "linear transform reported for different CRSs")
@@ -413,7 +450,7 @@ def o_diff(case, T):
     e = envelope(d2s, Wd, Hd, 65)
     pad = o["padding"] if o["padding"] is not None else 1
     gap = max(0 - e[1], e[0] - Ws, 0 - e[3], e[2] - Hs)
-    if gap > pad + (o["align"] or 0) + 1.5:
+    if static_ok and gap > pad + (o["align"] or 0) + 1.5:
         require(roi_is_empty(info.roi_src) and roi_is_empty(info.roi_dst), "rasters separated by %.4g source px but regions are roi_src=%r roi_dst=%r", gap, info.roi_src, info.roi_dst)
         T.cls("separated")
     # transform agrees with oracle
